@@ -1513,7 +1513,7 @@ def detect_wc_close(src_dir):
 
 
 # the signature of the modelled methods on the tree the model was written against (see shape_signature;
-# /repo at 64d926d, i.e. with the repairs of F17, of both halves of F18 and of F22); the instructions of Model/ChanFault.v
+# /repo at 7fa6a60, i.e. with the repairs of F17, both halves of F18, F22 and C12's three); the instructions of Model/ChanFault.v
 # transliterate exactly these statements
 EXPECTED_SHAPE = {'channel.py:HTTPChannel.__init__': ['w:outbufs', 'w:sendbuf_len call:getsockopt()', 'n:map call:__init__()', 'w:connected const:True', 'w:requests'],
  'channel.py:HTTPChannel._flush_exception': ['if(){',
@@ -1532,6 +1532,9 @@ EXPECTED_SHAPE = {'channel.py:HTTPChannel.__init__': ['w:outbufs', 'w:sendbuf_le
                                              'return(const:False const:False)'],
  'channel.py:HTTPChannel._flush_outbufs_below_high_watermark': ['if(r:total_outbufs_len cmp:Gt){',
                                                                 'with(self.outbuf_lock){',
+                                                                'if(not r:connected){',
+                                                                'return()',
+                                                                '}',
                                                                 'r:_flush_some const:False call:_flush_exception(do_close=False)',
                                                                 'if(){',
                                                                 'call:pull_trigger()',
@@ -1579,7 +1582,7 @@ EXPECTED_SHAPE = {'channel.py:HTTPChannel.__init__': ['w:outbufs', 'w:sendbuf_le
  'channel.py:HTTPChannel._flush_some_if_lockable': ['if(const:False call:acquire()){',
                                                     'try{',
                                                     'call:_flush_some(do_close=do_close)',
-                                                    'if(r:total_outbufs_len cmp:Lt){',
+                                                    'if(r:total_outbufs_len cmp:LtE){',
                                                     'call:notify()',
                                                     '}',
                                                     '}finally{',
@@ -1621,7 +1624,7 @@ EXPECTED_SHAPE = {'channel.py:HTTPChannel.__init__': ['w:outbufs', 'w:sendbuf_le
  'channel.py:HTTPChannel.handle_write': ['if(not r:requests){',
                                          'r:_flush_some_if_lockable',
                                          '}else{',
-                                         'if(r:total_outbufs_len cmp:GtE){',
+                                         'if(bool:Or r:total_outbufs_len cmp:GtE r:total_outbufs_len cmp:Gt){',
                                          'r:_flush_some_if_lockable',
                                          '}else{',
                                          'const:None',
@@ -2110,6 +2113,8 @@ SCENARIOS = {
                        "bodies": {"/a": [900, 900]}, "adj": {"outbuf_high_watermark": 1000}},
     "backpressure": {"scripts": {7: [["send", GET.hex()], ["wait_wire", 2000], ["close"]]},
                      "bodies": {"/a": [1200, 1200]}, "adj": {"outbuf_high_watermark": 1000}, "send_plans": {"7": [0, 0]}},
+    "backpressure-lowmark": {"scripts": {7: [["send", GET.hex()], ["wait_wire", 2000], ["close"]]},
+                             "bodies": {"/a": [1200, 1200]}, "adj": {"outbuf_high_watermark": 1000, "send_bytes": 5000}},
     "conn-close": {"scripts": {7: [["send", GETCLOSE.hex()], ["wait_wire", 60]]}},
     "bad-request": {"scripts": {7: [["send", BAD.hex()], ["wait_wire", 60]]}},
     "app-raises": {"scripts": {7: [["send", GET.hex()], ["wait_wire", 60], ["close"]]}, "raises": ["/a"]},
